@@ -7,6 +7,7 @@
   Core Lean only (linked into the driver, which also uses `applyOp` for the exact-α tie).
 -/
 import Gotree.Model.C03
+import Gotree.Model.C03More
 import Gotree.Model.C05
 import Gotree.Model.C06
 import Gotree.Model.C07
@@ -250,6 +251,35 @@ def roundRat (q : Rat) : Rat := if q ≥ 0 then ((q + 1/2).floor : Int) else -((
 def roundLengths0 (internal external : Bool) (t : T) : T :=
   mapData id (fun tip e => if e.len != NIL && selEdge internal external tip then { e with len := roundRat e.len } else e) t
 
+/- ### more data edits (round 7): AddLength, ClearPvalues, ClearNodeComments, ClearEdgeComments,
+   ClearTerminalEdgeComments, ScaleSupports, RoundSupports(0) (tree/tree.go:1365-1414, :1941-1996) -/
+
+/-- `AddLength(brlen, internal, external)`: a selected branch without a length gets `brlen` -/
+def addLength (x : Rat) (internal external : Bool) (t : T) : T :=
+  mapData id (fun tip e => if selEdge internal external tip then { e with len := if e.len != NIL then e.len + x else x } else e) t
+
+def clearPvalues (t : T) : T := mapData id (fun _ e => { e with pval := NIL }) t
+
+def clearNodeComments (t : T) : T := mapData (fun d => { d with comments := [] }) (fun _ e => e) t
+
+def clearEdgeComments (t : T) : T := mapData id (fun _ e => { e with comments := [] }) t
+
+/-- `ClearTerminalEdgeComments()`: the branches with `e.Right().Tip()` -/
+def clearTermEdgeComments (t : T) : T := mapData id (fun tip e => if tip then { e with comments := [] } else e) t
+
+/-- Go's `int(x)` for a float: truncation towards zero -/
+def truncRat (q : Rat) : Rat := if q ≥ 0 then ((q.floor : Int) : Rat) else -(((-q).floor : Int) : Rat)
+
+/-- `ScaleSupports(factor)`: `float64(int(1000000*(s*factor))) / 1000000` on every branch with a support.
+    Exact on the values the harness offers (`s*factor` a multiple of 1/64: then 1000000*s*factor is an
+    integer and the quotient a dyadic number). -/
+def scaleSupports (x : Rat) (t : T) : T :=
+  mapData id (fun _ e => if e.sup != NIL then { e with sup := truncRat (1000000 * (e.sup * x)) / 1000000 } else e) t
+
+/-- `RoundSupports(0)` -/
+def roundSupports0 (t : T) : T :=
+  mapData id (fun _ e => if e.sup != NIL then { e with sup := roundRat e.sup } else e) t
+
 /- ### ResolveNamedInternalNodes (tree/tree.go:1235): post-order, every named node that is not a tip
    gets one more child, a tip carrying its name on a fresh branch of length 0 (appended last) -/
 mutual
@@ -262,6 +292,125 @@ def resolveNamedL : Kids → Kids
   | [] => []
   | (e, t) :: r => (e, resolveNamed true t) :: resolveNamedL r
 end
+
+/-! ### CollapseClade (tree/algo.go:415) with LeastCommonAncestorRooted / LeastCommonAncestorRecur (:89, :123) -/
+
+structure LcaRes where
+  found : Option (List Nat)   -- path of the node at which all the wanted tips were counted
+  com : Nat                   -- wanted tips met
+  diff : Nat                  -- other tips met (below children holding a wanted tip only, once found)
+
+/- `LeastCommonAncestorRecur(current, prev, tipIndex)`: `F` the wanted names that exist in the tree;
+   `.error` = `current.NodeIndex(prev)` fails (a wanted tip that is the root: prev is nil) -/
+mutual
+def lcaT (F : List String) (hasParent : Bool) (path : List Nat) : T → Except Unit LcaRes
+  | .node d _ k =>
+    let isTip := k.length + (if hasParent then 1 else 0) == 1
+    let inF := isTip && F.contains d.name
+    if inF && !hasParent then .error () else
+    match lcaL F path 0 k with
+    | .error e => .error e
+    | .ok (some r, _, _, _) => .ok r
+    | .ok (none, com, diff, tmp) =>
+      let common := (if inF then 1 else 0) + com
+      let different := (if isTip && !inF then 1 else 0) + diff
+      if common == F.length then .ok ⟨some path, common, different⟩ else .ok ⟨none, common, different + tmp⟩
+def lcaL (F : List String) (path : List Nat) : Nat → Kids → Except Unit (Option LcaRes × Nat × Nat × Nat)
+  | _, [] => .ok (none, 0, 0, 0)
+  | i, (_, t) :: r =>
+    match lcaT F true (path ++ [i]) t with
+    | .error e => .error e
+    | .ok res =>
+      if res.found.isSome then .ok (some res, 0, 0, 0) else
+      match lcaL F path (i + 1) r with
+      | .error e => .error e
+      | .ok (some x, a, b, c) => .ok (some x, a, b, c)
+      | .ok (none, com, diff, tmp) =>
+        if res.com > 0 then .ok (none, com + res.com, diff + res.diff, tmp) else .ok (none, com, diff, tmp + res.diff)
+end
+
+/-- `CollapseClade(strict, name, tips...)`: the node found is replaced, in place, by a new tip `name` on the
+    same branch; the history goes on with the host tree (the clade is returned and dropped) -/
+def collapseClade (strict : Bool) (name : String) (tips : List String) (t : T) : Res T :=
+  if hasDupS (t.nodeNames.filter (· != "")) then .err "NewNodeIndex: several nodes with the same name" else
+  let F := (tips.filter fun x => x != "" && t.nodeNames.contains x).eraseDups
+  if F.isEmpty then .err "none of the given tips are present in the tree" else
+  match lcaT F false [] t with
+  | .error _ => .err "The Node is not in the neighbors of node"
+  | .ok r =>
+    match r.found with
+    | none => .err "no common ancestor found for the given tips (names must be current tip names)"   -- since b687409 (F97); before: nil dereference
+    | some p =>
+      if r.diff != 0 && strict then .err "the given outgroup is not monophyletic, cannot reroot"
+      else if p.isEmpty then .err "The node has no parent : May be the root?"
+      else .ok (modAt (fun _ _ => T.leaf name) true p t)
+
+/-! ### Annotate (tree/tree.go:1521)
+
+    nodeindex, err := NewNodeIndex(t)                       // ONCE, before the loop: look-ups are by the ORIGINAL names
+    for _, line := range names {
+        if len(line) < 2 { return error }
+        else if len(line) == 2 { if node, found := nodeindex.GetNode(line[1]); found { AddComment / SetName (line[0]) } }
+        else { n, _, _, err := t.LeastCommonAncestorRooted(nodeindex, line[1:]...); if err != nil { return err }
+               if n == nil { return error }                   // since b687409 (F97): no node holds all names as tips
+               n.AddComment / n.SetName (line[0]) }
+    }
+
+  `LeastCommonAncestorRecur` compares the CURRENT name of a tip with the given names, the index answers
+  for the ORIGINAL ones: after a line has renamed a tip, a later line whose list names that tip finds
+  no ancestor; since b687409 (F97) the call then reports an error (before: nil dereference); the lines
+  already applied stay applied. -/
+
+def addCommentNode (c : String) : Bool → T → T :=
+  fun _ t => .node { t.d with comments := t.d.comments ++ [c] } t.ppos t.kids
+
+def setNameNode (nm : String) : Bool → T → T :=
+  fun _ t => .node { t.d with name := nm } t.ppos t.kids
+
+/- path of the first node (Nodes() order) carrying the name -/
+mutual
+def findName (x : String) (path : List Nat) : T → Option (List Nat)
+  | .node d _ k => if d.name == x then some path else findNameL x path 0 k
+def findNameL (x : String) (path : List Nat) : Nat → Kids → Option (List Nat)
+  | _, [] => none
+  | i, (_, t) :: r =>
+    match findName x (path ++ [i]) t with
+    | some p => some p
+    | none => findNameL x path (i + 1) r
+end
+
+/-- one line of the loop -/
+def annotateStep (comment : Bool) (orig : T) (line : List String) (cur : T) : Res T :=
+  let f := fun (nw : String) => if comment then addCommentNode nw else setNameNode nw
+  match line with
+  | [] => .err "Error in tree annotation: Wrongly formatted annotation slice"
+  | [_] => .err "Error in tree annotation: Wrongly formatted annotation slice"
+  | [nw, old] =>
+    match (if old == "" then none else findName old [] orig) with
+    | some p => .ok (modAt (f nw) true p cur)
+    | none => .ok cur
+  | nw :: names =>
+    let F := (names.filter fun x => x != "" && orig.nodeNames.contains x).eraseDups
+    if F.isEmpty then .err "none of the given tips are present in the tree" else
+    match lcaT F false [] cur with
+    | .error _ => .err "The Node is not in the neighbors of node"
+    | .ok r =>
+      match r.found with
+      | none => .err "no common ancestor found for the given tips (names must be current tip names)"   -- since b687409 (F97); before: nil dereference
+      | some p => .ok (modAt (f nw) true p cur)
+
+def annotateLoop (comment : Bool) (orig : T) : List (List String) → T → Res T
+  | [], cur => .ok cur
+  | line :: rest, cur =>
+    match annotateStep comment orig line cur with
+    | .ok c => annotateLoop comment orig rest c
+    | .err m => .err m
+    | .panic m => .panic m
+
+/-- `Annotate(names, comment)` -/
+def annotate (comment : Bool) (lines : List (List String)) (t : T) : Res T :=
+  if hasDupS (t.nodeNames.filter (· != "")) then .err "NewNodeIndex: several nodes with the same name"
+  else annotateLoop comment t lines t
 
 /-- `ReinitIndexes()` does not touch the tree; it fails without tips or with duplicate tip names -/
 def reinit (t : T) : Gotree.C05.Res T :=
@@ -303,6 +452,14 @@ inductive EditOp where
   | clearComments                                       -- Tree.ClearComments
   | scaleLengths (x : Rat) (internal external : Bool)   -- Tree.ScaleLengths
   | roundLengths0 (internal external : Bool)            -- Tree.RoundLengths(0, …)
+  | rotateOne (path : List Nat) (draws : List Nat)      -- Node.RotateNeighbors() on the node at `path`, the draws of rand.Intn given
+  | addLength (x : Rat) (internal external : Bool)      -- Tree.AddLength
+  | clearPvalues                                        -- Tree.ClearPvalues
+  | clearNodeComments                                   -- Tree.ClearNodeComments
+  | clearEdgeComments                                   -- Tree.ClearEdgeComments
+  | clearTermEdgeComments                               -- Tree.ClearTerminalEdgeComments
+  | scaleSupports (x : Rat)                             -- Tree.ScaleSupports
+  | roundSupports0                                      -- Tree.RoundSupports(0)
   deriving Repr
 
 def applyOp : EditOp → T → Res T
@@ -378,6 +535,14 @@ def applyOp : EditOp → T → Res T
   | .clearComments, t => .ok (clearComments t)
   | .scaleLengths q i x, t => .ok (scaleLengths q i x t)
   | .roundLengths0 i x, t => .ok (roundLengths0 i x t)
+  | .rotateOne p ds, t => .ok (rotateOne p ds t)
+  | .addLength q i x, t => .ok (addLength q i x t)
+  | .clearPvalues, t => .ok (clearPvalues t)
+  | .clearNodeComments, t => .ok (clearNodeComments t)
+  | .clearEdgeComments, t => .ok (clearEdgeComments t)
+  | .clearTermEdgeComments, t => .ok (clearTermEdgeComments t)
+  | .scaleSupports q, t => .ok (scaleSupports q t)
+  | .roundSupports0, t => .ok (roundSupports0 t)
 
 /-- a history: stops at the first operation that does not report success -/
 def runOps : T → List EditOp → Res T
